@@ -33,7 +33,8 @@
    empty; quoted values free of their quote and of backslash (they MAY contain `>` `<` `/` `=`); unquoted values
    not empty, free of quote / white space / `>` / `/`, not starting with a bracket; expression characters free of
    quote / brace / backslash outside its quoted strings; text free of `<`; comment / CDATA / raw bodies in which
-   the terminator (`-->`, `]]>`, `</name>`) occurs first at the end (ends_firstb; C09_ends_first_spec); PI pieces
+   the terminator (`-->`, `]]>`, `</name>`) occurs first at the end (ends_firstb; C09_ends_first_spec; true of
+   every body that does not contain its terminator: C09_terminator_free_bodies); PI pieces
    plain non-quote characters or quoted strings, no `?>` before the end; an element is IRaw exactly when the scanner
    option `special` makes it raw ([is_raw]: `style`, `script` whose first `type` attribute, unquoted, is a
    JavaScript type or absent) -- then its body is arbitrary text free of its own close tag.
@@ -54,7 +55,7 @@
 From Coq Require Import List NArith ZArith.
 From Emmet Require Import lib.Base gen.GenHtml model.HtmlScan model.HtmlMatch
   proofs.HtmlScanProofs proofs.HtmlFoldProofs proofs.HtmlC16Proofs proofs.HtmlForestProofs
-  proofs.HtmlRenderLib proofs.HtmlRender proofs.HtmlRenderScan proofs.HtmlRenderCompose.
+  proofs.HtmlRenderLib proofs.HtmlRender proofs.HtmlRenderScan proofs.HtmlRenderCompose proofs.HtmlRenderFree.
 From Emmet Require lib.StrLit.
 Import ListNotations.
 
@@ -205,6 +206,14 @@ Theorem C09_ends_first_spec :
     (forall i, (i < length body)%nat -> starts_with pat (skipn i (body ++ pat)) = false).
 Proof. exact ends_firstb_spec. Qed.
 Print Assumptions C09_ends_first_spec.
+
+(* ... and it holds whenever the body does not contain its terminator at all *)
+Theorem C09_terminator_free_bodies :
+  (forall b, contains comment_close b = false -> ends_firstb comment_close b = true) /\
+  (forall b, contains cdata_close b = false -> ends_firstb cdata_close b = true) /\
+  (forall n b, name_ok n = true -> contains (close_tag n) b = false -> ends_firstb (close_tag n) b = true).
+Proof. exact (conj comment_body_free (conj cdata_body_free raw_body_free)). Qed.
+Print Assumptions C09_terminator_free_bodies.
 
 (* non-vacuity of Level B: a document with every construct of the grammar is in the domain, renders to the
    text shown, and the functions on the text give the record's answers *)
